@@ -3,8 +3,11 @@
 import json, subprocess, re
 k = json.load(open('/verif/known_findings.json'))['findings']
 order = [l.split()[0] for l in subprocess.run(['git', '-C', '/repo', 'log', '--reverse', '--format=%h'], stdout=subprocess.PIPE, text=True).stdout.split('\n') if l]
-byc = {f['commit']: f for f in k if f['status'] == 'fixed'}
-rows = [f"| `{c}` | {byc[c]['property']} | {byc[c]['description']} |" for c in order if c in byc]
+byc = {}
+for f in k:
+    if f['status'] == 'fixed':
+        byc.setdefault(f['commit'], []).append(f)
+rows = [f"| `{c}` | {', '.join(x['property'] for x in byc[c])} | {'; '.join(x['description'] for x in byc[c])} |" for c in order if c in byc]
 s = open('/verif/DESIGN.md').read()
 i = s.index('| commit | property | what failed |'); j = s.index('\n\nPatterns:', i)
 s = s[:i] + '| commit | property | what failed |\n|---|---|---|\n' + '\n'.join(rows) + s[j:]
